@@ -88,6 +88,8 @@ def main():
                 shutil.rmtree(scratch, ignore_errors=True)
                 continue
             props = ALL if h.get("property", "all") == "all" else [p.strip() for p in h["property"].split(",")]
+            if os.environ.get("CV_ONLY_PROPS") and kind != "mutants":
+                props = [p_ for p_ in props if p_ in os.environ["CV_ONLY_PROPS"].split(",")] or props[:1]
             ok = True
             detail = []
             # the first check extracts the facts; the others then run in parallel on the cached facts
